@@ -74,6 +74,12 @@ func runChain(desc *chainDesc) {
 		if desc.RealForward {
 			c.Name = fmt.Sprintf("q%d.c%d.c15.test.", i, desc.Idx)
 		}
+		// additional-section dimension: every tenth case (own generator stream, so
+		// the other cases of the chain stay what they were) the client sends a
+		// generated record list instead of "at most one OPT"
+		if ar := rand.New(rand.NewSource(desc.Seed*9000011 + int64(desc.Idx)*15485863 + int64(i)*31 + 77)); ar.Intn(10) == 0 {
+			genClientAdditional(ar, c)
+		}
 		run := &caseRun{c: c}
 		qb := c.queryBytes()
 		q := new(dns.Msg)
@@ -112,6 +118,33 @@ func runChain(desc *chainDesc) {
 		}
 		if c.Inject != nil {
 			rep.Count("cases_scripted_with_injected_opt", 1)
+		}
+		if c.Additional != nil {
+			shape := c.additionalShape()
+			nOpt := len(c.clientOpts())
+			rep.Count("client_additional_cases", 1)
+			rep.Count(fmt.Sprintf("client_additional_cases:%d_opt", nOpt), 1)
+			rep.SetAdd("client_additional_shapes", shape)
+			run.mu.Lock()
+			nUp := len(run.up)
+			run.mu.Unlock()
+			outcome := "answered"
+			switch {
+			case reply == nil && nUp == 0:
+				outcome = "dropped-before-upstream"
+			case reply == nil:
+				outcome = "no-reply"
+			}
+			if len(c.Additional) > 1 {
+				rep.Count("client_additional_multi_record:"+outcome, 1)
+				if nOpt > 1 && nUp > 0 {
+					rep.Count("client_additional_multi_opt_reached_upstream", 1)
+				}
+			} else {
+				rep.Count("client_additional_single_or_empty:"+outcome, 1)
+			}
+			fwd := len(desc.namedUp()) > 0
+			rep.Nontrivial(fmt.Sprintf("ADDL|%s|%s|fwd=%v|udp=%v", shape, outcome, fwd, c.FromUDP))
 		}
 		// coverage grid for ecs_handler: configuration x client ECS class x upstream ECS class
 		for _, e := range desc.Pre {
@@ -226,6 +259,13 @@ func main() {
 		descs = append(descs, genBranchChain(rep.Seed, 200000+i, nBranchCases))
 	}
 
+	// replace family: several responders on one context (replace.go)
+	nReplace := rep.Pick(96, 1600)
+	nReplaceCases := rep.Pick(120, 200)
+	for i := 0; i < nReplace; i++ {
+		descs = append(descs, genBranchChain(rep.Seed, replaceIdxBase+i, nReplaceCases))
+	}
+
 	jobs := make(chan *chainDesc)
 	var wg sync.WaitGroup
 	for w := 0; w < workers; w++ {
@@ -259,7 +299,13 @@ func main() {
 		"outcome:upstream_error", "outcome:upstream_noresp", "outcome:upstream_timeout", "handler_made_replies_judged_with_client_opt",
 		"handler_made_replies_judged:rcode2", "handler_made_replies_judged:rcode5",
 		"branch_exchanges:main", "branch_exchanges:primary", "branch_exchanges:secondary", "branch_exchanges_in_lazy_refresh",
-		"lazy_hits_with_refresh_awaited", "branch_reply_options_attributed_to_relayed_exchange"}
+		"lazy_hits_with_refresh_awaited", "branch_reply_options_attributed_to_relayed_exchange",
+		"client_additional_cases:0_opt", "client_additional_cases:1_opt", "client_additional_cases:2_opt", "client_additional_cases:3_opt",
+		"up_queries_for_generated_client_additional",
+		"replace_final:local", "replace_final:cached", "replace_final:upstream-without-opt", "replace_final:upstream-with-options",
+		"replace_final:handler-servfail", "replace_final:handler-refused",
+		"replace_discarded_reply_had_forwardable_options:then-local", "replace_discarded_reply_had_forwardable_options:then-cached",
+		"replace_discarded_reply_had_forwardable_options:then-upstream-without-opt", "replace_discarded_reply_had_forwardable_options:then-upstream-with-options"}
 	// 12 ecs_handler configurations x 4 client classes x 4 upstream classes = 192 cells
 	rep.Count("ecs_handler_grid_cells_seen", int64(rep.SetLen("ecs_handler_grid")))
 	if rep.SetLen("ecs_handler_grid") < 150 {
